@@ -1,6 +1,6 @@
 """C08 - value semantics: arguments and receivers not mutated, results not aliased."""
 from .. import obs as O
-from .common import (Contract, ansi_values, history, run_cases, tier_sizes, safe_obs, is_ansi, small_scope_values,
+from .common import (trie_case, Contract, ansi_values, history, run_cases, tier_sizes, safe_obs, is_ansi, small_scope_values,
                      small_scope_on)
 
 PROP = 'C08'
@@ -434,9 +434,51 @@ def drive(ctx, mon, tier, only_case=None):
                             break
         ctx.extra['n_small_scope_values'] = nv
 
+    def trie_alias(v, p):
+        # a producing operation on a node of the operation tree; wipe the result, the source must not notice - and
+        # the other way round
+        prods = [lambda x: x[1:3], lambda x: x[:2], lambda x: x + 'x', lambda x: x + x, lambda x: x.split('b'),
+                 lambda x: x.partition('c'), lambda x: x.clip(0, 2), lambda x: x.ljust(5), lambda x: x.replace('b', 'B'),
+                 lambda x: list(x), lambda x: x.copy(), lambda x: L.AnsiStr(x)]
+        pi = len(p) * 7 + sum(o[2] + o[3] for o in p)
+        for k in range(3):
+            prod = prods[(pi + k * 5) % len(prods)]
+            with mon.quiet():
+                src = L.AnsiString(v)
+                res = prod(src)
+                results = [r for r in flat_results(L, res) if isinstance(r, L.AnsiString)]
+                ctx.ev('op-tree-alias')
+                if any(r is src for r in results):
+                    ctx.violation('result-is-source-or-shared', {'value': O.observe(src).describe()}, mech='aliasing-small-scope')
+                    continue
+                s0 = Snap(L, src)
+                for r in results:
+                    r.remove_formatting()
+                    r.apply_formatting('[95;7', 0, None, topmost=False)
+                d = s0.diff(L)
+                if d:
+                    ctx.violation('source-changed-by-mutating-result', {'what': d, 'source_before': s0.o.describe()},
+                                  mech='aliasing-small-scope')
+                    continue
+                src = L.AnsiString(v)
+                res = prod(src)
+                results = [r for r in flat_results(L, res) if is_ansi(L, r)]
+                r0 = [Snap(L, r) for r in results]
+                src.remove_formatting()
+                src.apply_formatting('[95;7', 0, None, topmost=False)
+                for sn in r0:
+                    d = sn.diff(L)
+                    if d:
+                        ctx.violation('result-changed-by-mutating-source', {'what': d, 'result_before': sn.o.describe()},
+                                      mech='aliasing-small-scope')
+                        break
+
     def body(rng, ex, case):
         if case == 0:
             small_scope(rng)
+            return
+        if case == 1:
+            trie_case(ctx, mon, tier, 2, 3, visit=trie_alias)
             return
         profile = 'mixed' if rng.random() < 0.3 else 'wf'
         hg = history(L, rng, ex, rng.randint(2, sz['nops']), sz['maxlen'], profile, WEIGHTS)
